@@ -94,7 +94,8 @@ inductive Pc where
   | finPreStop (e : Exit)
   | finDropRx (e : Exit)
   | finPostStop (e : Exit)
-  | finRelease (e : Exit)              -- about to drop the registration and return
+  | finRelease (e : Exit)              -- about to drop the registration
+  | finNotify (e : Exit)               -- `run` path only: about to tell the supervisor `terminated` / `failed`
   | exited (e : Exit)
   deriving DecidableEq, Repr
 
@@ -120,6 +121,9 @@ structure St where
   resolved : List (Nat × Res) := []    -- calls that completed, with their result
   issued : Nat := 0                    -- number of calls that entered `sendCheck`
   stopConsumed : Bool := false
+  /-- supervision notifications issued so far (0 `started`, 1 `terminated`, 2 `failed`); they are sent to the
+  supervisor's mailbox when the actor has one (`Supervision::{started, terminated, failed}`) -/
+  notified : List Nat := []
   /-- `started_tx.send(Err(error))` happened: the spawner can observe `SpawnError::Start` -/
   startReported : Bool := false
   deriving Repr
@@ -145,6 +149,11 @@ def Exit.orFail (e : Exit) (ok : Bool) (code : Nat) : Exit :=
   | .stopped => if ok then .stopped else .failed code
   | e => e
 
+/-- which notification an exit produces: 1 `terminated` for `Stopped`, 2 `failed` otherwise -/
+def exitNote : Exit → Nat
+  | .stopped => 1
+  | .failed _ => 2
+
 inductive Ev where
   -- any thread holding a `Mailbox` / `Broker`
   | sendCheck (it : Item)
@@ -169,6 +178,7 @@ inductive Ev where
   | dropRx
   | postStop (ok : Bool)
   | release
+  | notifyExit                 -- `supervisor.terminated(..)` / `supervisor.failed(..)` after `drop(reg)`
   deriving DecidableEq, Repr
 
 /-- calls queued in a channel that is being destroyed: their reply senders are dropped -/
@@ -232,7 +242,9 @@ def step (s : St) : Ev → Option St
   | .postStart ok =>
     match s.pc with
     | .postStart =>
-      some ({ s with pc := if ok then .atRecv else .finBegin (.failed 2) }.obs (.hook .postStart ok))
+      -- `Ok` ⇒ `supervision.started(&myself)` before the receive loop
+      some ({ s with pc := if ok then .atRecv else .finBegin (.failed 2),
+                     notified := if ok then s.notified ++ [0] else s.notified }.obs (.hook .postStart ok))
     | _ => none
   | .pollStop =>
     match s.pc with
@@ -279,7 +291,13 @@ def step (s : St) : Ev → Option St
     | _ => none
   | .release =>
     match s.pc with
-    | .finRelease e => some { s with tok := s.tok.release, pc := .exited e }
+    | .finRelease e =>
+      -- the detached path (`finish` without `run`) returns right away: no supervisor is told
+      some { s with tok := s.tok.release, pc := if s.detached then .exited e else .finNotify e }
+    | _ => none
+  | .notifyExit =>
+    match s.pc with
+    | .finNotify e => some { s with notified := s.notified ++ [exitNote e], pc := .exited e }
     | _ => none
 
 /-- a schedule: `none` when some event was not enabled -/
@@ -363,6 +381,7 @@ def nextEvents (sc : Script) (s : St) : List Ev :=
   | .finDropRx _ => [.dropRx]
   | .finPostStop _ => [.postStop sc.postStop]
   | .finRelease _ => [.release]
+  | .finNotify _ => [.notifyExit]
   | .exited _ => []
 
 /-- let the actor task run until it blocks (fuel: each round performs one `nextEvents` batch).
